@@ -26,4 +26,32 @@ def Authentic (H : Nat → Id) (cw : Perm → Bool) (l : Log) (rootId : Id) (att
          ∀ pid ∈ c.prev, ∃ pc ∈ att, pc.id = pid ∧
            (pc.derived = true ∨ ∃ j, idxOf l pc.aclHead = some j ∧ j ≤ i))))
 
+/-- the global invariant: every attached change is authentic with respect to the current log and
+attached set, and the changes collection holds exactly the attached ids -/
+def AllAuthentic (H : Nat → Id) (cw : Perm → Bool) (l : Log) (t : TreeSt) : Prop :=
+  (∀ c ∈ t.attached, ∃ raw, Authentic H cw l t.rootId t.attached raw c) ∧
+  t.stored = t.attached.map (·.id)
+
+/-- what can happen to a replica's tree: a batch is delivered, or the local ACL log grows -/
+inductive Step where
+  | add (batch : List Raw)
+  | growAcl (more : List Rec)
+
+structure Sys where
+  log  : Log
+  tree : TreeSt
+
+def Sys.step (H : Nat → Id) (cw : Perm → Bool) (keep : Bool) (s : Sys) : Step → Sys
+  | .add b => { s with tree := (addRaw H cw keep s.log s.tree b).2.2 }
+  | .growAcl m => { s with log := s.log ++ m }
+
+def Sys.run (H : Nat → Id) (cw : Perm → Bool) (keep : Bool) (s : Sys) (steps : List Step) : Sys :=
+  steps.foldl (Sys.step H cw keep) s
+
+/-- record ids stay pairwise distinct whenever the log grows -/
+def StepsOk : Log → List Step → Prop
+  | _, [] => True
+  | l, .add _ :: rest => StepsOk l rest
+  | l, .growAcl m :: rest => ((l ++ m).map (·.id)).Nodup ∧ StepsOk (l ++ m) rest
+
 end AnySync.Auth
